@@ -1,6 +1,7 @@
 import RpmVerif.Lemmas.Cpio
 import RpmVerif.Lemmas.FileIter
 import RpmVerif.Lemmas.PayloadWriter
+import RpmVerif.Lemmas.CpioPrefix
 /-!
 # C07 — payload iteration returns every file's exact content under its own metadata
 
@@ -883,6 +884,86 @@ theorem cast_truncation_accepts_excess (w : Writer) (buf : Bytes) (hb : buf.leng
 
 end WriterMachine
 
+/-! ## the iterator over a STREAMING decoder: damaged and truncated compressed payloads (AUDIT2 a12) -/
+section Chunked
+open RpmVerif.PkgFiles
+
+theorem atStreamEnd_false {α} (o : Out α) : atStreamEnd false o = o := by
+  unfold atStreamEnd; split <;> simp_all
+
+theorem okPrefix_map_atStreamEnd {α} (f : Bool) (l : List (Out α)) : okPrefix (l.map (atStreamEnd f)) = okPrefix l := by
+  induction l with
+  | nil => rfl
+  | cons o r ih =>
+    cases o with
+    | ok a => simp only [List.map_cons, atStreamEnd, okPrefix, ih]
+    | err c =>
+      simp only [List.map_cons, okPrefix]
+      unfold atStreamEnd
+      split <;> (try split) <;> simp_all [okPrefix]
+    | panic s => simp only [List.map_cons, atStreamEnd, okPrefix]
+
+theorem okPrefix_map_outMap {α β} (g : α → β) (l : List (Out α)) : okPrefix (l.map (Out.map g)) = (okPrefix l).map g := by
+  induction l with
+  | nil => rfl
+  | cons o r ih => cases o <;> simp [okPrefix, Out.map, ih]
+
+/-- the all-or-nothing `files` is the streaming `filesChunked` of a decoder that decodes everything and ends cleanly -/
+theorem files_eq_filesChunked (decompress : Bytes → Out Bytes) (payload : Bytes) (paths : List Bytes) (sizes : List Nat) :
+    files decompress payload paths sizes =
+      filesChunked (fun p => (decompress p).map fun a => ⟨a, false⟩) payload paths sizes := by
+  unfold files filesChunked
+  cases h : decompress payload with
+  | ok a =>
+    simp only [h, Out.map, Out.bind_ok, Out.pure_eq, Out.ok.injEq]
+    rw [List.map_congr_left (fun o _ => atStreamEnd_false o), List.map_id']
+  | err c => simp only [h, Out.map, Out.bind_err]
+  | panic s => simp only [h, Out.map, Out.bind_panic]
+
+/-- **a damaged stream gives some of the right items, then an error — never a wrong item.** Whatever the decoder does
+(`decode`), if it hands out the bytes `d.bytes` — a prefix of what an intact payload decodes to (`archive`) — and then stops,
+cleanly or with an error, the `Ok` items `files()` yields before the first error are an initial segment of the `Ok` items
+of the intact package: same header file, same content, same order. -/
+theorem files_chunked_prefix (decode : Bytes → Out Decoded) (payload : Bytes) (paths : List Bytes) (sizes : List Nat)
+    {d : Decoded} (hd : decode payload = .ok d) {archive : Bytes} (hp : d.bytes <+: archive) :
+    ∃ l, filesChunked decode payload paths sizes = .ok l ∧
+      okPrefix l <+: okPrefix (iterate archive paths sizes) ∧ l.length = (iterate d.bytes paths sizes).length := by
+  obtain ⟨t, rfl⟩ := hp
+  refine ⟨(iterate d.bytes paths sizes).map (atStreamEnd d.failed),
+    by simp only [filesChunked, hd, Out.bind_ok, Out.pure_eq], ?_, by simp⟩
+  rw [okPrefix_map_atStreamEnd]
+  simp only [iterate, iterateFrom, okPrefix_map_outMap]
+  exact (FileIter.okPrefix_iterateE_append paths sizes sizes.length d.bytes t).map _
+
+/-- **once the cpio trailer has been read the decoder is never asked again**: when the bytes decoded so far hold the
+whole archive (the iteration over them has no error item), `files()` yields exactly the items of the intact package —
+whether the decoder would go on, end, or FAIL afterwards (a gzip member cut inside its CRC trailer, garbage after the
+last frame): such damage is invisible to `files()` and `extract()`. -/
+theorem files_chunked_clean (decode : Bytes → Out Decoded) (payload : Bytes) (paths : List Bytes) (sizes : List Nat)
+    {d : Decoded} (hd : decode payload = .ok d) {archive : Bytes} (hp : d.bytes <+: archive)
+    (hclean : ∀ o ∈ iterate d.bytes paths sizes, o.isOk = true) :
+    filesChunked decode payload paths sizes = .ok (iterate archive paths sizes) := by
+  obtain ⟨t, rfl⟩ := hp
+  have hcl : ∀ o ∈ iterateE paths sizes sizes.length d.bytes, o.isOk = true := by
+    intro o ho
+    have := hclean (o.map fun x => (x.1, x.2.2)) (List.mem_map.mpr ⟨o, ho, rfl⟩)
+    cases o <;> simp_all [Out.map, Out.isOk]
+  have e : iterate (d.bytes ++ t) paths sizes = iterate d.bytes paths sizes := by
+    simp only [iterate, iterateFrom, FileIter.iterateE_append_clean paths sizes sizes.length d.bytes t hcl]
+  simp only [filesChunked, hd, Out.bind_ok, Out.pure_eq, Out.ok.injEq, e]
+  have : ∀ o ∈ iterate d.bytes paths sizes, atStreamEnd d.failed o = o := by
+    intro o ho
+    have := hclean o ho
+    cases o <;> simp_all [atStreamEnd, Out.isOk]
+  rw [List.map_congr_left this, List.map_id']
+
+/-- constructing the decoder fails (codec not compiled in: `UnsupportedCompressorType`): `files()` itself is the error -/
+theorem files_chunked_unsupported (decode : Bytes → Out Decoded) (payload : Bytes) (paths : List Bytes) (sizes : List Nat)
+    {c : String} (hd : decode payload = .err c) : filesChunked decode payload paths sizes = .err c := by
+  simp only [filesChunked, hd, Out.bind_err]
+
+end Chunked
+
 /-! ## non-vacuity -/
 
 /-- the hypotheses of the round-trip theorems are satisfiable by non-trivial values -/
@@ -912,6 +993,14 @@ example : iterate (archiveOf [({ name := [46, 104] }, [1]), ({ name := [120, 46,
     = [.ok (1, [1]), .ok (0, [2, 3])] := by decide +kernel
 example : Designates wPaths (.stripped 2) 2 ∧ ¬ Designates wPaths (.stripped 3) 3 := by
   simp [Designates, wPaths]
+/-- a two-file archive cut inside the second entry's data: the first item, then an error (class `io` when the decoder
+failed, `eof` when the stream just ended); a decoder that fails only AFTER the trailer: both items, no error, the failure unseen -/
+example :
+    let a := builderArchive 0 0 [⟨[46, 47, 97], 33188, [1, 2, 3]⟩, ⟨[46, 47, 98], 33261, [4, 5, 6, 7, 8]⟩]
+    filesChunked (fun p => .ok ⟨p.take 240, true⟩) a [[47, 97], [47, 98]] [3, 5] = .ok [.ok (0, [1, 2, 3]), .err "io"] ∧
+    filesChunked (fun p => .ok ⟨p.take 240, false⟩) a [[47, 97], [47, 98]] [3, 5] = .ok [.ok (0, [1, 2, 3]), .err "eof"] ∧
+    filesChunked (fun p => .ok ⟨p, true⟩) a [[47, 97], [47, 98]] [3, 5] = .ok [.ok (0, [1, 2, 3]), .ok (1, [4, 5, 6, 7, 8])] ∧
+    a.length = 368 := by decide +kernel
 example : namePath [46, 47, 97] = [47, 97] ∧ namePath [46, 97] = [46, 97] ∧ namePath [97] = [97] ∧ namePath [46] = [46] := by decide
 
 end RpmVerif.C07
